@@ -6,7 +6,10 @@ CONSTANTS
   WD = 4
   SampLen = 16
   SampN = 8
+  IntW = 16
+  IntRes = {2, 4, 8, 64}
+  IntSlopes = {1, 3}
 SPECIFICATION Spec
-INVARIANTS TypeOK SortMeaning BuildMeaning BuildResult GetResult GetPmfResult MapMeaning MapResult ReduceMeaning ReduceResult CredResult SampleOnPmf SampleResult NoStall
+INVARIANTS TypeOK SortMeaning BuildMeaning BuildResult GetResult GetPmfResult MapMeaning MapResult ReduceMeaning ReduceResult CredResult SampleOnPmf SampleResult IntMeaning IntResult IntExactLemma NoStall
 PROPERTY Progress
 CHECK_DEADLOCK FALSE
